@@ -47,8 +47,11 @@ public:
     }
     void *alloc(std::size_t sz) {
         if (sz > _capacity) {
-            ::operator delete (_ptr);
+            //allocate first, release afterwards: _ptr never holds the address of a released
+            //block (reusable_storage_mtsafe::dealloc compares against it from other threads)
+            void *old = _ptr;
             _ptr = ::operator new(sz);
+            ::operator delete (old);
             _capacity = sz;
         }
         return _ptr;
